@@ -232,7 +232,7 @@ QUICK_CFGS = ["dbg", "dbg-hadd-ci"]
 ALL_CFGS = ["dbg", "dbg-hadd", "dbg-ci", "dbg-hadd-ci", "rel", "rel-hadd", "rel-ci", "rel-hadd-ci"]
 
 
-def _prob(prop, q_cases, t_cases, max_size=300, layers=(None,), budget_ms=20000, extra_opts=None):
+def _prob(prop, q_cases, t_cases, max_size=300, layers=(None,), budget_ms=20000, extra_opts=None, l0_mult=1):
     def runs(tier):
         cfgs = QUICK_CFGS if tier == "quick" else ALL_CFGS
         n = q_cases if tier == "quick" else t_cases
@@ -240,7 +240,8 @@ def _prob(prop, q_cases, t_cases, max_size=300, layers=(None,), budget_ms=20000,
         per = max(1, 16 // len(combos))
         out = []
         for c, l in combos:
-            r = {"cfg": c, "harness": "h_prob", "cases": n, "max_size": max_size, "shards": per, "budget_ms": budget_ms, "excl": list(GEN_EXCL), "opts": dict(extra_opts or {})}
+            r = {"cfg": c, "harness": "h_prob", "cases": n * (l0_mult if l == "L0" else 1), "max_size": max_size, "shards": per, "budget_ms": budget_ms, "excl": list(GEN_EXCL),
+                 "opts": dict(extra_opts or {})}
             if l:
                 r["opts"]["layer"] = l
             out.append(r)
@@ -252,7 +253,7 @@ _PROB_TRUST = ("Trusted: the harness's typed generator / printer / exact evaluat
                "(get, arith_value, sat value of sigma, ov value). Shapes covered by the known findings KF1-KF4 are excluded by named generator predicates and represented by their replay files.")
 
 PROPS["C01"] = {
-    "runs": _prob("C01", 1200, 20000, layers=("L0", "L1", "L3")),
+    "runs": _prob("C01", 1000, 20000, layers=("L0", "L1", "L3"), l0_mult=4, budget_ms=10000),
     "rule": "Typed RIDDLE problems generated with a printer and an exact evaluator, read and solved in-process (solver::read + solve) in each configuration of the run "
             "(quick: Debug h_max and Debug h_add + CHECK_INCONSISTENCIES; thorough: all 8 of h_max/h_add x CI off/on x Debug/Release). Layers: L0 real/int/bool variables, linear "
             "relations with rational coefficients (products with constants on either side, division, unary +/-), & | -> ^ ! == != between booleans, disjunction statements; "
@@ -267,7 +268,7 @@ PROPS["C01"] = {
     "assumptions": ["int variables are LRA reals without integrality", "constraints in user-defined rule bodies are outside this check"],
 }
 PROPS["C02"] = {
-    "runs": _prob("C02", 1200, 20000, layers=("L0", "L1", "L3")),
+    "runs": _prob("C02", 800, 20000, layers=("L0", "L1", "L3"), l0_mult=2, budget_ms=10000),
     "rule": "Same generator as C01. (a) Free problems of layers L0/L1 are translated to Z3 (reals, booleans, finite-domain integers for object variables, field accesses as ite chains): "
             "'unsolvable' (false from solve(), unsolvable / inconsistency exception from read() or solve()) while Z3 finds a model is a violation. (b) Planted problems of all layers "
             "(a witness assignment / schedule is drawn first and every emitted constraint is true under it) must never be declared unsolvable. Non-trivial: the verdict was unsolvable, or the "
@@ -341,7 +342,7 @@ PROPS["C18"]["rule"] += (" programs (valid typed programs of the C01 generator, 
 
 def _c03(tier):
     q = tier == "quick"
-    n = 700 if q else 40000
+    n = 450 if q else 40000
     runs = [{"cfg": "dbg-l", "harness": "h_exec", "cases": n, "max_size": 300, "shards": 8, "budget_ms": 20000, "excl": list(GEN_EXCL)}]
     for c in (["dbg", "dbg-hadd-ci"] if q else ALL_CFGS):
         runs.append({"cfg": c, "harness": "h_prob", "cases": n, "max_size": 300, "shards": 4 if q else 2, "budget_ms": 20000, "excl": list(GEN_EXCL)})
@@ -385,6 +386,29 @@ PROPS["C19"] = {
                   "(one request per tick, only when no other atom is pending); the excluded shapes are represented by their replay files.",
     "level_note": _PROB_TRUST,
     "assumptions": ["integral delays (whole tick units); real-time behaviour (timer, ROS) is outside"],
+}
+
+
+def _c20(tier):
+    q = tier == "quick"
+    return [{"cfg": "par-tsan", "harness": "h_net", "cases": 50 if q else 1500, "max_size": 500, "shards": 16, "budget_ms": 60000}]
+
+
+PROPS["C20"] = {
+    "runs": _c20,
+    "rule": "Build with PARALLELIZE=ON and ThreadSanitizer (RelWithDebInfo, assertions on). LRA histories of the C09 generator biased to many relation literals over shared variables (so the "
+            "entering variable of a pivot occurs in several rows); the tape also chooses the pool size in {1, 2, 4, 16} (hook H4: ORATIO_VERIF_POOL) and whether a seeded perturbation "
+            "(yield / spin / 50 us sleep) runs at the scheduling points at task start, before each watch-list lock and at task end. Oracles: (1) in-situ reference through hook H4: after "
+            "every parallel pivot, when join() has returned, each touched row must equal the sequential update (the entering variable substituted by its expression, exact arithmetic, "
+            "no zero coefficient stored) and the watch lists restricted to those rows must list exactly the variables of each row; (2) the number of tasks started == ended == rows at that "
+            "moment (join returned with no task active); (3) any ThreadSanitizer report (data race, mutex misuse) ends the case abnormally = violation; (4) C09's model check of values and "
+            "bounds on the parallel build. Non-trivial: at least one pivot with >= 2 parallel row tasks. Distinct by rendered history.",
+    "technique": "property-based testing under ThreadSanitizer with seeded schedule perturbation and an in-situ sequential reference for every parallel pivot",
+    "level_text": "Schedules are sampled (OS scheduler + seeded perturbation at the hook points), not enumerated: this is the weakest claim of the set. The sequential reference is computed by the "
+                  "harness from the rows before the pivot, so 'parallel = sequential' is checked at the only place where the two builds differ; learnt-clause sequences are not compared "
+                  "between builds (row propagation iterates a hash set of pointers, so they legitimately differ).",
+    "level_note": "Trusted: ThreadSanitizer (Z3 and rapidcheck, which are not instrumented, are suppressed: tools/tsan.supp), hook H4, GMP. " + _NET_TRUST,
+    "assumptions": ["a ThreadSanitizer report in code of /repo is a violation; reports attributed to libz3 / librapidcheck are suppressed"],
 }
 
 NOT_CLAIMED = {}
